@@ -127,3 +127,37 @@ func (P *Prog) enumPaths(fn *ssa.Function, start *ssa.BasicBlock, isStop func(*s
 func (P *Prog) allPaths(fn *ssa.Function) []*Path {
 	return P.enumPaths(fn, fn.Blocks[0], nil, false)
 }
+
+// feasible reports whether the path's branch conditions are free of the
+// contradictions the enumeration can introduce by ignoring correlations: the
+// same predicate with both polarities, and for len(...) terms (which are
+// never negative) the combinations len==0 ∧ 0<len, len!=0 ∧ !(0<len).
+func (p *Path) feasible() bool {
+	pol := map[string]bool{}
+	for _, c := range p.conds {
+		k := c.Pred.String()
+		if v, ok := pol[k]; ok && v != c.Val {
+			return false
+		}
+		pol[k] = c.Val
+	}
+	for _, c := range p.conds {
+		if c.Pred.Op != "binop" {
+			continue
+		}
+		a, b := c.Pred.Args[0], c.Pred.Args[1]
+		// 0 < len(X)
+		if c.Pred.S == "<" && a.Op == "const" && a.S == "0" && b.Op == "len" {
+			eq0 := tEq(T("const", "0"), b).String()
+			if v, ok := pol[eq0]; ok {
+				if c.Val && v { // 0<len and len==0
+					return false
+				}
+				if !c.Val && !v { // len<=0 and len!=0
+					return false
+				}
+			}
+		}
+	}
+	return true
+}
